@@ -35,6 +35,7 @@ properties! {
     "C12" => c12,
     "C13" => c13,
     "C14" => c14,
+    "C15" => c15,
     "C16" => c16,
     "C17" => c17,
     "C18" => c18,
@@ -42,6 +43,7 @@ properties! {
     "C20" => c20,
 }
 
+pub mod c15_model;
 pub mod c18_model;
 pub mod ptsweep;
 
